@@ -445,6 +445,66 @@ func c11Hooks(r *core.Run) {
 				nilRej = true
 			}
 		}
+		if !nilRej {
+			// the validation may live in a helper that receives the hooks: the helper compares an element with nil,
+			// and the register function turns the helper's answer into an error return
+			for _, c := range core.Calls(regFn) {
+				h := core.StaticCallee(c)
+				hc, isCall := c.(*ssa.Call)
+				if h == nil || !isCall || !core.InModule(h) || len(h.Blocks) == 0 {
+					continue
+				}
+				passes := false
+				for _, a := range hc.Call.Args {
+					if len(regFn.Params) > 1 && a == ssa.Value(regFn.Params[len(regFn.Params)-1]) {
+						passes = true
+					}
+				}
+				if !passes {
+					continue
+				}
+				nilTest := false
+				for _, b := range h.Blocks {
+					if iff, isIf := b.Instrs[len(b.Instrs)-1].(*ssa.If); isIf {
+						if bo, isB := iff.Cond.(*ssa.BinOp); isB && (bo.Op == token.EQL || bo.Op == token.NEQ) && core.IsNil(bo.Y) {
+							if _, isSig := bo.X.Type().Underlying().(*types.Signature); isSig {
+								nilTest = true
+							}
+						}
+					}
+				}
+				if !nilTest {
+					continue
+				}
+				// an If in regFn on a value computed from the helper's result, one edge of which returns an error
+				for _, b := range regFn.Blocks {
+					iff, isIf := b.Instrs[len(b.Instrs)-1].(*ssa.If)
+					if !isIf {
+						continue
+					}
+					dep := false
+					switch x := iff.Cond.(type) {
+					case *ssa.BinOp:
+						dep = core.Strip(x.X) == ssa.Value(hc) || core.Strip(x.Y) == ssa.Value(hc)
+						if ex, isEx := core.Strip(x.X).(*ssa.Extract); isEx && ex.Tuple == ssa.Value(hc) {
+							dep = true
+						}
+					case *ssa.Call:
+						dep = x == hc
+					case *ssa.Extract:
+						dep = x.Tuple == ssa.Value(hc)
+					}
+					if !dep {
+						continue
+					}
+					for _, sb := range b.Succs {
+						if ret, isRet := sb.Instrs[len(sb.Instrs)-1].(*ssa.Return); isRet && !core.IsNil(core.RetVals(ret)[0]) {
+							nilRej = true
+						}
+					}
+				}
+			}
+		}
 		// the append happens after the validation loop, not inside it: a rejected call registers nothing
 		inLoop := false
 		for _, b := range regFn.Blocks {
